@@ -205,6 +205,15 @@ func (w *world) alphabet(profile string) []letter {
 		ls = append(ls, vrfLetters()...)
 	}
 	if w.opts.KeyManager {
+		// the key manager worlds explore the key manager: a reduced base alphabet plus all key manager letters
+		base := ls
+		ls = nil
+		for _, l := range base {
+			switch l.Name {
+			case "empty-block", "transfer(a0->a1,10,fee2)", "votes=none", "evidence=dupvote:0", "evidence=dupvote:2", "reclaim(a0<-e0,500sh=all)":
+				ls = append(ls, l)
+			}
+		}
 		ls = append(ls, kmLetters()...)
 	}
 	if w.opts.Runtime {
